@@ -59,6 +59,9 @@ type GenOpts struct {
 	MaxLevel    int // depth of the non-core hierarchy
 	MaxPeerings int
 	Parallel    bool // allow parallel links between the same pair of ASes
+	// SameASNumbers numbers the ASes of every ISD alike (1-ff00:0:1, 2-ff00:0:1, ...): the identity of
+	// an AS is the ISD-AS pair, AS numbers may repeat across ISDs.
+	SameASNumbers bool
 }
 
 // DefaultOpts are the bounds used by the quick tiers.
@@ -73,12 +76,21 @@ func IAOf(isd, k int) addr.IA {
 	return addr.MustIAFrom(addr.ISD(isd), addr.AS(0xff00_0000_0000+uint64(isd)*0x100+uint64(k)))
 }
 
+// IAOfShared is like IAOf but the AS number does not depend on the ISD.
+func IAOfShared(isd, k int) addr.IA {
+	return addr.MustIAFrom(addr.ISD(isd), addr.AS(0xff00_0000_0000+uint64(k)))
+}
+
 // Gen generates a random small topology: 1..MaxISD ISDs, each with 1..MaxCore core ASes and a
 // hierarchy of non-core ASes (every non-core AS has 1..2 parents on the level above), a connected
 // core network, and a few peering links between ASes that are not both core.
 func Gen(rng *rand.Rand, o GenOpts) *Topo {
 	t := &Topo{ASes: map[addr.IA]*AS{}}
 	nISD := 1 + rng.Intn(o.MaxISD)
+	iaOf := IAOf
+	if o.SameASNumbers {
+		iaOf = IAOfShared
+	}
 	used := map[addr.IA]map[uint16]bool{}
 	newAS := func(ia addr.IA, core bool, level int) *AS {
 		key := make([]byte, 16)
@@ -128,7 +140,7 @@ func Gen(rng *rand.Rand, o GenOpts) *Topo {
 		var lv0 []addr.IA
 		k := 1
 		for c := 0; c < nCore; c++ {
-			ia := IAOf(isd, k)
+			ia := iaOf(isd, k)
 			k++
 			newAS(ia, true, 0)
 			lv0 = append(lv0, ia)
@@ -142,7 +154,7 @@ func Gen(rng *rand.Rand, o GenOpts) *Topo {
 		}
 		for n := 0; n < nNon; n++ {
 			lvl := 1 + rng.Intn(min(o.MaxLevel, len(levels)))
-			ia := IAOf(isd, k)
+			ia := iaOf(isd, k)
 			k++
 			newAS(ia, false, lvl)
 			all = append(all, ia)
@@ -209,8 +221,14 @@ func FromSpec(rng *rand.Rand, isdOf []int, nCore int, links []LinkSpec) *Topo {
 	t := &Topo{ASes: map[addr.IA]*AS{}}
 	used := map[addr.IA]map[uint16]bool{}
 	var ias []addr.IA
+	perISD := map[int]int{}
+	shared := rng.Intn(2) == 0 // number the ASes of every ISD from 1: AS numbers repeat across ISDs
 	for i, isd := range isdOf {
+		perISD[isd]++
 		ia := IAOf(isd, i+1)
+		if shared {
+			ia = IAOfShared(isd, perISD[isd])
+		}
 		key := make([]byte, 16)
 		rng.Read(key)
 		lvl := 1
